@@ -101,11 +101,11 @@ def evalCidr (c : PyVal) (what : PyVal) : R :=
   | .str a =>
     (match c with
      | .str n =>
-       (match Cidr.parseIp4 a with
+       (match Cidr.parseAddr a with
         | Option.none => .ok false
-        | some ip =>
-          match Cidr.parseNet4 n with
-          | .ok net p => .ok (Cidr.contains net p ip)
+        | some (av, ip) =>
+          match Cidr.parseNet n with
+          | .ok nv net p => .ok (Cidr.contains nv net p av ip)
           | _ => .ok false)
      | _ => .ok false)
   | _ => .ok false
